@@ -2,3 +2,7 @@ import TephraProps.C05
 #print axioms Tephra.Props.C05_peek_idempotent
 #print axioms Tephra.Props.C05_next_delivers_lookahead
 #print axioms Tephra.Props.C05_fork_frame
+#print axioms Tephra.Props.C05_partial
+#print axioms Tephra.Props.C05_scan_state_sequential
+#print axioms Tephra.Props.C05_finding_F19
+#print axioms Tephra.Props.C05_needs_final_refusal
